@@ -768,9 +768,16 @@ def g_resize(rng):
 
 
 # ---------------------------------------------------------------------------
-def _nest_chain(rng, depth_to, ctxs=("loky",), timeouts=(10,), fork_at=None, level=1, variants=False):
+def _nest_chain(rng, depth_to, ctxs=("loky",), timeouts=(10,), fork_at=None, level=1, variants=False, init_at=None):
     """Spec of a nested task that builds an executor at worker level `level` and
-    recurses until depth_to (inclusive: the innermost one only tries to construct)."""
+    recurses until depth_to (inclusive: the innermost one only tries to construct).
+    init_at: at that level the chain ends with a pool whose workers build one more executor *in their initializer*
+    (depth level+1) which a later task of the same worker uses."""
+    if init_at == level:
+        inner = {"kind": rng.choice(["plain", "reusable"]), "kw": {"max_workers": 1, "timeout": 10}}
+        probe = {"k": "probe", "what": ["depth", "pid"]}
+        return {"k": "nested", "kind": "plain", "kw": {"max_workers": 1, "timeout": 10}, "init_nested": inner,
+                "sub": [dict(probe), {"k": "use_init_nested", "sub": [dict(probe), dict(probe)]}, dict(probe)], "then": "wait", "shutdown": True}
     kind = rng.choice(["reusable", "plain"])
     kw = {"max_workers": rng.randint(1, 2), "timeout": rng.choice(timeouts)}
     ctx = rng.choice(ctxs)
@@ -786,7 +793,7 @@ def _nest_chain(rng, depth_to, ctxs=("loky",), timeouts=(10,), fork_at=None, lev
         kw["max_workers"] = 1
         sub += [{"k": "probe", "what": ["depth", "pid"], "arg": ["slow_pickle", 0.25]}, {"k": "probe", "what": ["depth", "pid"], "arg": ["slow_pickle", 0.25]}]
     if level < depth_to:
-        sub.append(_nest_chain(rng, depth_to, ctxs, timeouts, fork_at, level + 1, variants))
+        sub.append(_nest_chain(rng, depth_to, ctxs, timeouts, fork_at, level + 1, variants, init_at))
         sub.append({"k": "probe", "what": ["depth", "pid"]})
         if rng.random() < 0.4:
             sub.append({"k": "sleep", "d": 0.02})
@@ -801,9 +808,10 @@ def _nest_chain(rng, depth_to, ctxs=("loky",), timeouts=(10,), fork_at=None, lev
     return spec
 
 
-def g_depth(rng):
-    """C19: chains of nested executors up to MAX_DEPTH+1, with reuse / respawn / resize histories."""
-    maxd = rng.choice([1, 2, 3, 4, None, 0, -1])
+def g_depth(rng, family=None):
+    """C19: chains of nested executors up to MAX_DEPTH+1, with reuse / respawn / resize histories.
+    family 'init_nested': somewhere in the chain an executor is built by a worker's initializer and used by a later task."""
+    maxd = rng.choice([1, 2, 3, 4, None, 0, -1]) if family != "init_nested" else rng.choice([2, 3, 3, 4, None, 0])
     env = {} if maxd is None else {"LOKY_MAX_DEPTH": str(maxd)}
     limit = 10 if maxd is None else maxd
     if limit > 0:
@@ -817,7 +825,12 @@ def g_depth(rng):
     ops = [{"op": "new", "ex": "e", "kind": kind, "kw": kw}]
     ops.append({"op": "submit", "ex": "e", "task": {"k": "probe", "what": ["depth", "pid"]}})
     variants = rng.random() < 0.5
-    ops.append({"op": "submit", "ex": "e", "task": _nest_chain(rng, depth_to, ctxs=("loky", "loky", "loky_init_main"), timeouts=(10, 10, 0.1), fork_at=fork_at, variants=variants)})
+    init_at = None
+    if family == "init_nested":
+        # at the limit (the initializer's construction must be refused) or right below the top (it must succeed, one level deeper)
+        init_at = rng.choice([max(1, depth_to - 1), 1])
+        fork_at = None
+    ops.append({"op": "submit", "ex": "e", "task": _nest_chain(rng, depth_to, ctxs=("loky", "loky", "loky_init_main"), timeouts=(10, 10, 0.1), fork_at=fork_at, variants=variants, init_at=init_at)})
     ops.append({"op": "wait", "futs": "all"})
     r = rng.random()
     if r < 0.35:
@@ -829,7 +842,7 @@ def g_depth(rng):
         ops += [{"op": "get_reusable", "ex": "e", "kw": dict(kw, max_workers=3)}, {"op": "submit", "ex": "e", "task": {"k": "probe", "what": ["depth", "pid"]}},
                 {"op": "submit", "ex": "e", "task": {"k": "probe", "what": ["depth", "pid"]}}, {"op": "submit", "ex": "e", "task": {"k": "probe", "what": ["depth", "pid"]}}]
     ops += [{"op": "wait", "futs": "all"}, {"op": "shutdown", "ex": "e", "wait": True}]
-    return {"threads": [ops], "end": "return"}, {"gen": "g_depth", "max_depth": maxd, "depth_to": depth_to, "fork_at": fork_at, "kind": kind, "env": env, "variants": variants}
+    return {"threads": [ops], "end": "return"}, {"gen": "g_depth", "max_depth": maxd, "depth_to": depth_to, "fork_at": fork_at, "kind": kind, "env": env, "variants": variants, "family": family, "init_at": init_at}
 
 
 def g_fresh(rng, force_init=None, force_exc=None):
